@@ -2769,8 +2769,10 @@ def orbital_equinox2equinox(epoch0, epoch, i0, arg0, lon0):
     pir = pie.rad()
     # If i0 is very small, the procedure is different
     if abs(i0) < TOL:  # Orbit in the plane of the ecliptic: node undefined
-        i1 = eta
-        lon1 = pie + p + 180.0
+        # For an equinox earlier than the initial one 'eta' is negative: The
+        # inclination stays positive and the node is the opposite one
+        i1 = abs(eta)
+        lon1 = (pie + p + 180.0) if eta >= 0.0 else (pie + p)
     else:
         a = sin(i0r) * sin(lon0r - pir)
         b = -sin(etar) * cos(i0r) + cos(etar) * sin(i0r) * cos(lon0r - pir)
